@@ -435,8 +435,68 @@ func runC18Expression(l sx.List) (sx.SX, string) {
 				}
 			}
 		}
+		// a missing function is reported as an error naming it, also when it is a built-in that the caller's own function
+		// collection does not hold
+		if fail == "" {
+			var fns []string
+			var walk func(t *Tree)
+			walk = func(t *Tree) {
+				if t.Kind == "call" {
+					fns = append(fns, t.Text)
+				}
+				for _, a := range t.Args {
+					walk(a)
+				}
+			}
+			walk(tree)
+			if len(fns) > 0 {
+				vars := variables.NewVariableCollection()
+				for _, v := range want {
+					vars.Add(variables.NewVariable(v, variants.VariantFromInteger(1)))
+				}
+				own := functions.NewFunctionCollection()
+				own.Add(functions.NewDelegatedFunction("zz_only", func(ps []*variants.Variant, ops variants.IVariantOperations) (*variants.Variant, error) {
+					return variants.VariantFromInteger(1), nil
+				}))
+				_, err := calc.EvaluateUsingVariablesAndFunctions(vars, own)
+				if err == nil {
+					fail = fmt.Sprintf("evaluation against a function collection that holds none of %q succeeded", fns)
+				}
+			}
+		}
+		// automatic variables are created whenever an expression is set - also the same expression again after the option was
+		// switched on, or after entries were removed
+		if fail == "" && len(want) > 0 {
+			ac := calculator.NewExpressionCalculator()
+			ac.SetAutoVariables(false)
+			ac.SetExpression(text)
+			ac.SetAutoVariables(true)
+			ac.SetExpression(text)
+			if ac.DefaultVariables().Length() != len(uniqueFold(want)) {
+				fail = fmt.Sprintf("automatic variables switched on and the same expression set again: %d default variables, expected %d", ac.DefaultVariables().Length(), len(uniqueFold(want)))
+			} else {
+				ac.DefaultVariables().Remove(0)
+				ac.SetExpression(text)
+				if ac.DefaultVariables().Length() != len(uniqueFold(want)) {
+					fail = fmt.Sprintf("an entry removed and the same expression set again: %d default variables, expected %d", ac.DefaultVariables().Length(), len(uniqueFold(want)))
+				}
+			}
+		}
 	}
 	return obs, fail
+}
+
+// uniqueFold: the names that differ ignoring letter case
+func uniqueFold(names []string) []string {
+	seen := map[string]bool{}
+	var out []string
+	for _, n := range names {
+		if k := strings.ToUpper(n); !seen[k] {
+			seen[k] = true
+			out = append(out, n)
+		}
+	}
+	return out
 }
 
 // one parser object that lives through the whole run: the names it reports are those of the current template only
